@@ -6,7 +6,9 @@ from . import envelope_common as E
 def run(ctx):
     pr, corr = E.run(ctx, "C03")
     corr.update({
-        "rule": "cases = {random, all-zero, all-ff, leading-zero 256-byte keys} x body lengths {0..48 all, 0..300 sampled (thorough: all), "
+        "rule": "keys of 128, 135, 136, 137, 200, 255, 257, 300 bytes (seal from 128, open from 136; below: refused) and Serialize with 0/1/127-byte keys (panics exactly as the model's "
+                "seal_client says - outside the property); model-compared bodies up to 65519 (thorough: 65520, 65536, 70000); isPacketEncrypted on ids with 0..8 leading zero bytes and "
+                "single non-zero bytes at each position; ReadMsg in intermediate and abridged mode (incl. the 0x7f length form); then: cases = {random, all-zero, all-ff, leading-zero 256-byte keys} x body lengths {0..48 all, 0..300 sampled (thorough: all), "
                 "1024-17..1024+17, 65536-17..65536+17 (every residue mod 16)} x {client->server with ack on/off, server->client with random "
                 "0..15 padding bytes and server/client msg_id parity}; plus serializePacket, Unencrypted.Serialize/Deserialize (intact and damaged), "
                 "isPacketEncrypted, the real transport.ReadMsg over a loopback connection (harness = server), and msg_ids over the whole int64 range "
@@ -29,7 +31,9 @@ def run(ctx):
          "validated further by this byte-for-byte comparison with crypto/sha1 + crypto/aes",
          "'a conformant server' = open_server / seal_server written in Coq from the MTProto 1.0 description, cross-checked on every run against an "
          "independent Go implementation inside the harness; not an external server",
-         "transport.ReadMsg is driven through the exported NewTransport over loopback TCP, intermediate mode, one frame in flight",
+         "the server->client key schedule (x = 8) has no author-independent test vector (none in the MTProto 1.0 description, none in the repository's tests; the repository's pinned packet, "
+         "reproduced as Example C03_repo_test_vector, exercises x = 0 only): x = 8 rests on the Coq transcription of the description, C03_key_schedule and the harness' own reference",
+         "transport.ReadMsg is driven through the exported NewTransport over loopback TCP, intermediate and abridged mode, one frame in flight",
          "verif hooks (build tag verif): messages.VerifSerializePacket, transport.VerifIsPacketEncrypted"],
         corr)
     return C.finish(ctx, "proof", cov, [
